@@ -870,7 +870,8 @@ def late_binding(ctx, rule, rels):
            '; '.join('%s reads loop variable %r when it is called' % (getattr(d, 'name', 'lambda'), v) for d, v in lb[:3]), why, nontrivial=bool(lb))
 
 
-_SYNC_NAMES = ('RLock', 'Lock', 'Semaphore', 'BoundedSemaphore', 'Condition', 'Event', 'Queue', 'JoinableQueue', 'LifoQueue', 'PriorityQueue', 'Timeout')
+_SYNC_NAMES = ('RLock', 'Lock', 'Semaphore', 'BoundedSemaphore', 'Condition', 'Event', 'Queue', 'JoinableQueue', 'LifoQueue', 'PriorityQueue', 'Timeout',
+               'socket', 'create_connection', 'socketpair')      # (a stdlib socket blocks the whole hub in recv/send: no timer fires any more)
 
 
 def greenlet_primitives(ctx, rule, rels):
@@ -915,3 +916,55 @@ def greenlet_primitives(ctx, rule, rels):
           seen.add(key)
           ok = all(o.startswith('gevent') for o in src)
           ctx.ob(rule, '%s:%d' % (rel, c.lineno), '%s() is a gevent primitive' % unparse(f), ok, '%s comes from %s' % (unparse(f), sorted(src)), why)
+
+
+def init_before_spawn(ctx, rule, rels):
+  """A constructor that starts a greenlet on a method of the object under construction has already stored every attribute that method reads:
+  the greenlet runs as soon as the constructor (or anything it calls) yields, and an attribute stored only later does not exist yet."""
+  prog = ctx.prog
+  why = ('the worker greenlet may be scheduled at the first yield after the spawn (a ZooKeeper round trip, a wait): it dies with AttributeError on a field the constructor '
+         'sets later, and everything that depends on the worker (notifications, timers) silently stops')
+  for rel in rels:
+    m = prog.modules.get(rel)
+    if m is None:
+      continue
+    for c in [k for k in prog.all_classes if k.module is m]:
+      init = c.methods.get('__init__')
+      if init is None:
+        continue
+      order = {}
+
+      def dfs(n):
+        order[id(n)] = len(order)
+        for ch in ast.iter_child_nodes(n):
+          dfs(ch)
+      dfs(init.node)
+      spawns = [x for x in walk_no_nested(init.node) if isinstance(x, ast.Call) and (call_attr(x) or '') in ('spawn', 'spawn_later', 'Greenlet', 'spawn_raw') and x.args]
+      for sp in spawns:
+        tgt = sp.args[1] if call_attr(sp) == 'spawn_later' and len(sp.args) > 1 else sp.args[0]
+        if not (isinstance(tgt, ast.Attribute) and isinstance(tgt.value, ast.Name) and tgt.value.id == 'self'):
+          continue
+        worker = prog.lookup_method(c, tgt.attr)
+        if worker is None:
+          continue
+        reads = set()
+        seen = set()
+        todo = [worker]
+        while todo and len(seen) < 6:
+          w = todo.pop()
+          if w.qualname in seen:
+            continue
+          seen.add(w.qualname)
+          for x in ast.walk(w.node):
+            if isinstance(x, ast.Attribute) and isinstance(x.value, ast.Name) and x.value.id == 'self' and isinstance(x.ctx, ast.Load):
+              reads.add(x.attr)
+              m2 = prog.lookup_method(c, x.attr)
+              if m2 is not None:
+                todo.append(m2)
+        first_store = {}
+        for x in ast.walk(init.node):
+          if isinstance(x, ast.Attribute) and isinstance(x.value, ast.Name) and x.value.id == 'self' and isinstance(x.ctx, ast.Store):
+            first_store[x.attr] = min(first_store.get(x.attr, 10 ** 9), order[id(x)])
+        late = sorted(a for a in reads if a in first_store and first_store[a] > order[id(sp)])
+        ctx.ob(rule, init, 'everything the greenlet started on self.%s reads is stored before it is started' % tgt.attr, not late,
+               'attributes read by %s but first stored after the spawn: %s' % (tgt.attr, late), why)
